@@ -278,7 +278,6 @@ class Clip:
 
     def __init__(self, polys, scale=None):
         self.polys = [np.asarray(p, dtype=np.float64) for p in polys]
-        # |dot| below 1e-11 * scale * |n| is rounding noise of a vertex meant to be on the plane, not a "snapped" vertex
         self.scale = float(scale) if scale is not None else max([float(np.abs(p).max()) for p in self.polys if len(p)] + [1e-300])
         self.ambiguous = False
         # a vertex with 0 < |dot| <= THR is "on the plane" by the documented tolerance although it is not: the part of
@@ -310,11 +309,15 @@ class Clip:
                 delta = float(a[sn].max())
                 rng = float(d.max() - d.min())
                 self.snap_area += float(np.linalg.norm(poly_vector_area(P))) * (min(1.0, 4.0 * delta / rng) if rng > 4.0 * delta else 1.0)
-                sig = sn & (a > 1e-11 * self.scale * float(np.linalg.norm(normal)))
-                if sig.any():
-                    self.snap_dist = max(self.snap_dist, float(a[sig].max()) / float(np.linalg.norm(normal)))
-                    if (d > THR).any() and (d < -THR).any():
-                        self.snapped_cut = True
+                self.snap_dist = max(self.snap_dist, delta / float(np.linalg.norm(normal)))
+                if (d > THR).any() and (d < -THR).any():
+                    # slice_faces_plane intersects the line of an edge that ends in such a vertex instead of taking the
+                    # vertex: the class is entered when that point is measurably (> 1e-11 scale) away from the vertex
+                    k = len(P)
+                    for i in np.nonzero(sn)[0]:
+                        for j in ((i - 1) % k, (i + 1) % k):
+                            if a[j] > THR and a[i] * float(np.linalg.norm(P[j] - P[i])) > 1e-11 * self.scale * abs(d[j] - d[i]):
+                                self.snapped_cut = True
             mn, mx = s.min(), s.max()
             if mn == 0 and mx == 0:
                 nv = poly_vector_area(P)
